@@ -34,13 +34,19 @@ def _hk(l):
 
 
 @st.composite
-def frame_input(draw, rpool, cpool, force_cols=None, force_layout=None):
+def frame_input(draw, rpool, cpool, force_cols=None, force_layout=None, common=None):
     rpos = [p for p in draw(st.permutations(list(range(len(rpool))))) if draw(st.booleans())]
     if force_cols is not None:
         cpos = list(force_cols)
     else:
         cpos = [p for p in draw(st.permutations(list(range(len(cpool))))) if draw(st.booleans())]
-    allow_empty = draw(st.integers(0, 9)) == 0  # zero-sized members are a known finding: keep them rare
+    allow_empty = draw(st.integers(0, 9)) == 9  # zero-sized members are a known finding: keep them rare
+    if common is not None and not allow_empty:
+        # one label shared by every input on the aligned axis, so that an intersection is rarely empty (a zero-sized
+        # result is the same known finding)
+        lst = cpos if common == 'c' else rpos
+        if 0 not in lst:
+            lst.append(0)
     if not rpos and not allow_empty:
         rpos = [draw(st.integers(0, len(rpool) - 1))]
     if not cpos and not allow_empty and force_cols is None:
@@ -51,14 +57,17 @@ def frame_input(draw, rpool, cpool, force_cols=None, force_layout=None):
 
 @st.composite
 def concat_cases(draw):
-    nr, nc = draw(st.integers(1, 6)), draw(st.integers(1, 5))
+    # decisive choices first (late draws are pinned to their first option for a share of Hypothesis's examples)
+    axis = draw(st.integers(0, 1))
+    mode = draw(st.sampled_from(['random', 'random', 'aligned', 'aligned_same_layout', 'aligned_relayout', 'disjoint_concat']))
+    ch = {'union': draw(st.booleans()), 'fill': draw(st.sampled_from(FILLS)), 'replace': draw(st.sampled_from([None, 'auto', None, 'list'])),
+          'gen': draw(st.booleans()), 'form': draw(st.sampled_from(['concat', 'items', 'concat']))}
+    k = draw(st.sampled_from([2, 3, 1, 4, 2, 3, 1, 4, 2, 3, 0]))  # (no input at all is the zero-sized known finding: rare)
+    nr, nc = draw(st.sampled_from([3, 2, 4, 1, 5, 6])), draw(st.sampled_from([3, 2, 4, 1, 5]))
     rkind = draw(st.sampled_from(['str', 'int']))
     ckind = draw(st.sampled_from(['str', 'int']))
     rpool = draw(gen.flat_labels(nr, rkind))
     cpool = draw(gen.flat_labels(nc, ckind))
-    axis = draw(st.integers(0, 1))
-    k = draw(st.integers(0, 4))
-    mode = draw(st.sampled_from(['random', 'random', 'aligned', 'aligned_same_layout', 'aligned_relayout', 'disjoint_concat']))
     inputs = []
     for q in range(k):
         if mode in ('aligned', 'aligned_same_layout', 'aligned_relayout') and inputs:
@@ -89,19 +98,20 @@ def concat_cases(draw):
                 fi['blocks'] = draw(gen.blocks(len(fi['rpos']), len(fi['cpos']), kinds=KINDS, missing=True))
             inputs.append(fi)
         else:
-            inputs.append(draw(frame_input(rpool, cpool)))
+            inputs.append(draw(frame_input(rpool, cpool, common=None if ch['union'] else ('c' if axis == 0 else 'r'))))
     if mode == 'disjoint_concat' and k:
         # make the concat-axis labels disjoint so the call is valid without a replacement
         pool_n = nr if axis == 0 else nc
         owner = [draw(st.integers(0, k - 1)) for _ in range(pool_n)]
+        if draw(st.integers(0, 9)) < 9:
+            for q in range(min(k, pool_n)):
+                owner[q] = q  # every input owns a label when the pool allows (a zero-sized member is the known finding: rare)
         for q, fi in enumerate(inputs):
             key = 'rpos' if axis == 0 else 'cpos'
             fi[key] = [p for p in range(pool_n) if owner[p] == q]
             fi['blocks'] = draw(gen.blocks(len(fi['rpos']), len(fi['cpos']), kinds=KINDS, missing=True))
     as_series = [draw(st.booleans()) and draw(st.booleans()) for _ in inputs]
-    return {'rpool': rpool, 'cpool': cpool, 'axis': axis, 'inputs': inputs, 'union': draw(st.booleans()),
-            'fill': draw(st.sampled_from(FILLS)), 'replace': draw(st.sampled_from([None, None, 'auto', 'list'])),
-            'gen': draw(st.booleans()), 'form': draw(st.sampled_from(['concat', 'concat', 'items'])), 'mode': mode, 'as_series': as_series}
+    return dict({'rpool': rpool, 'cpool': cpool, 'axis': axis, 'inputs': inputs, 'mode': mode, 'as_series': as_series}, **ch)
 
 
 def _build_input(case, fi):
@@ -229,14 +239,15 @@ def check_concat(case):
 
 @st.composite
 def series_cases(draw):
-    n = draw(st.integers(1, 6))
+    what = draw(st.sampled_from(['s_concat', 's_concat_items', 's_overlay', 'f_overlay']))  # decisive choices first
+    union, explicit = draw(st.booleans()), draw(st.booleans())
+    k = draw(st.sampled_from([2, 3, 1, 4]))
+    n = draw(st.sampled_from([3, 2, 4, 1, 5, 6]))
     pool = draw(gen.flat_labels(n, draw(st.sampled_from(['str', 'int']))))
-    k = draw(st.integers(1, 4))
-    what = draw(st.sampled_from(['s_concat', 's_concat_items', 's_overlay', 'f_overlay']))
     ins = []
     for q in range(k):
         pos = [p for p in draw(st.permutations(list(range(n)))) if draw(st.booleans())]
-        if not pos and draw(st.integers(0, 9)):
+        if not pos and draw(st.integers(0, 9)) < 9:
             pos = [draw(st.integers(0, n - 1))]
         kind = draw(st.sampled_from(['float64', 'object', 'int64', '<U3', 'bool']))
         if what == 'f_overlay':
@@ -244,7 +255,7 @@ def series_cases(draw):
             ins.append({'pos': pos, 'cpos': cpos, 'blocks': draw(gen.blocks(len(pos), len(cpos), kinds=('float64', 'object', 'int64'), missing=True))})
         else:
             ins.append({'pos': pos, 'values': draw(gen.column(kind, len(pos)))})
-    return {'pool': pool, 'what': what, 'ins': ins, 'union': draw(st.booleans()), 'explicit': draw(st.booleans())}
+    return {'pool': pool, 'what': what, 'ins': ins, 'union': union, 'explicit': explicit}
 
 
 def check_series(case):
@@ -388,8 +399,8 @@ def tag(case, f):
 
 
 SUBS = [
-    Sub('frame_concat', concat_cases(), check_concat, quick=1500, thorough=48000, tag=tag,
+    Sub('frame_concat', concat_cases(), check_concat, quick=6000, thorough=48000, tag=tag,
         rule='Frame.from_concat / from_concat_items vs cell mapping model'),
-    Sub('series_overlay', series_cases(), check_series, quick=1200, thorough=24000, tag=tag,
+    Sub('series_overlay', series_cases(), check_series, quick=4800, thorough=24000, tag=tag,
         rule='Series.from_concat(_items), Series/Frame.from_overlay vs model'),
 ]
